@@ -295,7 +295,16 @@ func bound(sc scenario) time.Duration {
 	return time.Duration(sc.DeadlineMs)*time.Millisecond + time.Duration(sc.DialMs)*time.Millisecond + slack
 }
 
+// poisoned is set once a call that never returns has been confirmed: such a defect usually sits
+// in process-wide state (a timer wheel, a lock), every further scenario of this process would only
+// wait for its own watchdog.
+var poisoned atomic.Bool
+
 func runScenario(sc scenario) {
+	if poisoned.Load() {
+		run.Add("scenarios_skipped_after_confirmed_hang", 1)
+		return
+	}
 	dl := time.Duration(sc.DeadlineMs) * time.Millisecond
 	p := newPeer(sc.Fault, dl, int64(sc.ID))
 	defer p.stop()
@@ -339,9 +348,10 @@ func runScenario(sc scenario) {
 	}
 	select {
 	case <-done:
-	case <-time.After(bound(sc)*time.Duration(sc.PerCaller) + 30*time.Second):
+	case <-time.After(bound(sc)*time.Duration(sc.PerCaller) + 20*time.Second):
 		// a call that never returns: confirm on a fresh, isolated replay
 		if replayOverrun(sc, 3) {
+			poisoned.Store(true)
 			run.Violation("call-never-returns", sc.Fault, fmt.Sprintf("a call did not return within %v (deadline %d ms); reproduced on an isolated replay; scenario %+v", bound(sc)+30*time.Second, sc.DeadlineMs, sc), wit(nil))
 		} else {
 			run.Inconclusive(fmt.Sprintf("a call did not return in scenario %+v but the isolated replay returned", sc))
@@ -469,7 +479,7 @@ func replayOverrun(sc scenario, n int) bool {
 		go func() { wg.Wait(); close(done) }()
 		select {
 		case <-done:
-		case <-time.After(bound(sc) + 60*time.Second):
+		case <-time.After(bound(sc) + 20*time.Second):
 			p.stop()
 			continue // did not return: counts as exceeding
 		}
